@@ -8,5 +8,6 @@ Schedules == {s \in [1..(Runs * PerRun) -> R] : \A r \in R : Count(s, r) = PerRu
 Cases == LET S == SetToSeq(Schedules) IN [k \in 1..Len(S) |-> [id |-> k, runs |-> Runs, calls |-> Calls, sched |-> S[k]]]
 ASSUME ndJsonSerialize("cases.ndjson", Cases)
 \* the schedule the model took is one of the exported ones
-HistIsSchedule == AllDone => hist \in Schedules
+\* (a call started with `go` has no put event: its schedule is a prefix-compatible sub-sequence; checked for runs without go)
+HistIsSchedule == (AllDone /\ Len(hist) = Runs * PerRun) => hist \in Schedules
 =============================================================================
